@@ -43,6 +43,11 @@ fn parse_line(line: &str) -> Result<Option<(IpAddr, HashSet<DomainName>)>, Error
     let mut new_names = HashSet::new();
 
     for (i, octet) in line.char_indices() {
+        // the rest of the line is a comment, which may hold any text
+        if let State::CommentToEndOfLine = state {
+            break;
+        }
+
         if !octet.is_ascii() {
             return Err(Error::ExpectedAscii { octet });
         }
